@@ -51,6 +51,8 @@ func VerifC38Allow() {
 		cidrs = []string{"fd00::/8", "fd00:1::/32", "::/0"}
 	case 3:
 		cidrs = []string{"10.0.0.0/8", "fd00::/8"}
+	case 5:
+		cidrs = []string{"::ffff:0.0.0.0/96", "10.0.0.0/8"} // the IPv4 default written in IPv4-mapped form
 	default:
 		cidrs = []string{"::ffff:10.0.0.0/104", "192.168.0.0/16"} // an IPv4 rule written in IPv4-mapped form
 	}
